@@ -314,6 +314,16 @@ def run(ctx):
     max_atoms = 330 if quick else 420
     built, rejected, skipped = build_members(keys, max_atoms, F.c02_member)
     built = built[:40] if quick else built[:600]
+    # slabs with a non-periodic direction and low-coordinated surface atoms (diamond / zincblende (100), rocksalt (111)): the
+    # members on which a wrong treatment of mixed periodicity in the distances shows first; appended, so that the members above
+    # stay what they were
+    extra_keys = [F.c02_key(p_, n_, k_, l_, "TTF", noise_, sd_)
+                  for (p_, n_, k_, l_, noise_) in (("diamond", "Si", "100", 4, 0.0), ("diamond", "C", "100", 3, 0.02), ("diamond", "Ge", "100", 4, 0.0),
+                                                   ("rocksalt", "NaCl", "111", 4, 0.0), ("rocksalt", "MgO", "111", 3, 0.02),
+                                                   ("zincblende", "ZnS", "100", 4, 0.0), ("zincblende", "GaAs", "111", 4, 0.05))
+                  for sd_ in ((1, 2) if quick else (1, 2, 3, 4, 5))]
+    eb, er, es = build_members([k_ for k_ in extra_keys if k_ not in {m["key"] for m in built}], max_atoms, F.c02_member)
+    built = built + eb
     members = []
     for c in load_corpus(PID):
         members.append({"id": len(members), "key": c["key"], "structure": c["structure"], "seed": c["seed"],
